@@ -220,6 +220,9 @@ func (t *Tap) decodeDatagram(flow string, b []byte) (*refproto.Segment, string) 
 
 // peek decodes a datagram once (memoised by id).
 func (t *Tap) peek(d *simnet.Datagram) *refproto.Segment {
+	if t.foreignAddr(d.Src) && t.foreignAddr(d.Dst) {
+		return nil
+	}
 	t.mu.Lock()
 	defer t.mu.Unlock()
 	if s, ok := t.peeked[d.ID]; ok {
@@ -285,7 +288,17 @@ func kindName(typ uint8) string {
 // ---------------------------------------------------------------------------
 // simnet.Tap implementation
 
+// foreignAddr: the address is not one of the mieru server's endpoints, so the
+// traffic is not mieru's (destinations, SOCKS5 front ends, egress proxies).
+func (t *Tap) foreignAddr(addr string) bool {
+	s := &t.w.Spec.Server
+	return addr != net.JoinHostPort(s.IP, fmt.Sprint(s.TCPPort)) && addr != net.JoinHostPort(s.IP, fmt.Sprint(s.UDPPort))
+}
+
 func (t *Tap) StreamOpen(c *simnet.ConnInfo) {
+	if t.foreignAddr(c.ServerAddr) {
+		return
+	}
 	t.mu.Lock()
 	defer t.mu.Unlock()
 	st := &streamTap{info: c, client: t.clientOfAddr(c.ClientAddr)}
@@ -547,6 +560,9 @@ func (t *Tap) checkNonce(name string, nonce []byte, where string) []func() {
 
 func (t *Tap) DatagramSent(d *simnet.Datagram) {
 	w := t.w
+	if t.foreignAddr(d.Src) && t.foreignAddr(d.Dst) {
+		return
+	}
 	t.mu.Lock()
 	if d.Dir == simnet.S2C && t.isAttacker(d.Dst) {
 		t.replied[d.Dst]++
